@@ -430,6 +430,15 @@ func fold(s *Sym) *Sym {
 			return s.X.X
 		}
 	case symBin:
+		// nil compared with nil (the error a helper certainly returned as nil)
+		if s.X != nil && s.Y != nil && s.X.K == symNil && s.Y.K == symNil {
+			switch s.Op {
+			case token.EQL:
+				return symBool(true)
+			case token.NEQ:
+				return symBool(false)
+			}
+		}
 		// integer arithmetic and comparisons on constants
 		if li, ok1 := s.X.ConstInt(); ok1 {
 			if ri, ok2 := s.Y.ConstInt(); ok2 {
